@@ -368,71 +368,95 @@ class Forwarding:
         return None
 
     def guard_edges(self, fa: FA, member: Member, needed: List[ClassInfo]) -> Tuple[list, list]:
-        """(edges to remove, descriptions of too-narrow guards).  An ``isinstance(<member>, G)`` test
-        whose G admits every needed class cannot be False for an object that needs the hook."""
+        """(edges to remove, descriptions of too-narrow guards).  Every branch condition that speaks about the member
+        (``isinstance(<member>, G)``, a boolean property ``<member>.p``, ``hasattr(<member>, ..)``; combined with and / or /
+        not and with conditions decided by the assumptions of this analysis) is evaluated once per class that needs the hook.
+        True for all of them: the False edge cannot be taken by an object that needs the hook and is removed (and vice versa);
+        False for some, True for others: the guard is too narrow (reported when a path without the call exists); not decided by
+        the class alone: recorded in ``_undecided_guards``."""
+        from ..fa import eval_truth
         removed, narrow = [], []
         if not hasattr(self, "_undecided_guards"):
             self._undecided_guards = []
+
+        def k3_and(vals):
+            return False if any(v is False for v in vals) else (True if all(v is True for v in vals) else None)
+
+        def k3_or(vals):
+            return True if any(v is True for v in vals) else (False if all(v is False for v in vals) else None)
+
         for n, nd in fa.cfg.nodes.items():
             if nd.kind != "test":
                 continue
-            atom = _guard_atom(fa, n, nd.ast)
-            if atom is None:
+            about: List[str] = []   # what the test says about the member
+            unknown: List[str] = []
+
+            def ev(e, K):
+                if isinstance(e, ast.UnaryOp) and isinstance(e.op, ast.Not):
+                    v = ev(e.operand, K)
+                    return None if v is None else (not v)
+                if isinstance(e, ast.BoolOp):
+                    vals = [ev(v, K) for v in e.values]
+                    return k3_and(vals) if isinstance(e.op, ast.And) else k3_or(vals)
+                if isinstance(e, ast.Call) and isinstance(e.func, ast.Name) and e.func.id == "isinstance" and len(e.args) == 2 \
+                        and not e.keywords and self.access_of(fa, e.args[0], n) == member:
+                    classes = self.own.guard_classes(fa.fi, e.args[1])
+                    if classes is None:
+                        unknown.append(ast.unparse(e)[:50])
+                        return None
+                    about.append(", ".join(g.name for g in classes))
+                    return any(g in K.mro() for g in classes)
+                if isinstance(e, ast.Call) and isinstance(e.func, ast.Name) and e.func.id == "hasattr" and len(e.args) == 2 \
+                        and isinstance(e.args[1], ast.Constant) and isinstance(e.args[1].value, str) \
+                        and self.access_of(fa, e.args[0], n) == member:
+                    about.append(f"hasattr {e.args[1].value}")
+                    if K.lookup(e.args[1].value) is not None:
+                        return True
+                    unknown.append(ast.unparse(e)[:50])
+                    return None
+                if isinstance(e, ast.Attribute) and isinstance(e.ctx, ast.Load) and self.access_of(fa, e.value, n) == member:
+                    about.append(f".{e.attr}")
+                    v = self._predicate_value(K, e.attr)
+                    if v is None:
+                        unknown.append(e.attr)
+                    return v
+                return eval_truth(fa.sym.term(e, n), fa.assume)
+
+            vals = {}
+            for K in needed:
+                vals[K.name] = ev(nd.ast, K)
+            if not about:
                 continue
-            conj = atom[1] if atom[0] == "all" else [atom]
-            verdicts = []  # per conjunct: True (always passes for needed classes) | ("narrow", ..) | None (not about the member)
-            for pol, call in conj:
-                if isinstance(call, ast.Attribute):
-                    m = self.access_of(fa, call.value, n)
-                    if m != member:
-                        verdicts.append(None)
-                        continue
-                    vals = {k.name: self._predicate_value(k, call.attr) for k in needed}
-                    if all(v is pol for v in vals.values()):
-                        verdicts.append(True)
-                    elif any(v is (not pol) for v in vals.values()):
-                        bad_ = [k_ for k_, v in vals.items() if v is (not pol)]
-                        verdicts.append(("narrow", [f".{call.attr}"], bad_))
-                    else:
-                        verdicts.append(("unknown", call.attr))
-                    continue
-                if len(call.args) != 2:
-                    verdicts.append(None)
-                    continue
-                m = self.access_of(fa, call.args[0], n)
-                if m != member:
-                    verdicts.append(None)
-                    continue
-                classes = self.own.guard_classes(fa.fi, call.args[1])
-                if classes is None:
-                    verdicts.append(None)
-                    continue
-                missing = [k for k in needed if not any(g in k.mro() for g in classes)]
-                if pol and not missing:
-                    verdicts.append(True)
-                elif not pol and not missing and atom[0] != "all":
-                    verdicts.append(True)
-                else:
-                    verdicts.append(("narrow", [g.name for g in classes], [k.name for k in missing]))
-            if verdicts and all(v is True for v in verdicts):
-                # an object that needs the hook always passes the test
-                pol0 = True if atom[0] == "all" else atom[0]
-                tgt = fa.cfg.out_edge(n, not pol0)
+            vs = list(vals.values())
+            if vs and all(v is True for v in vs):
+                tgt = fa.cfg.out_edge(n, False)
                 if tgt is not None:
-                    removed.append((n, tgt, not pol0))
+                    removed.append((n, tgt, False))
+            elif vs and all(v is False for v in vs):
+                tgt = fa.cfg.out_edge(n, True)
+                if tgt is not None:
+                    removed.append((n, tgt, True))
+            elif any(v is True for v in vs) and any(v is False for v in vs):
+                # the classes on the rarer side are the ones the guard does not treat like the others
+                t_ = [k for k, v in vals.items() if v is True]
+                f_ = [k for k, v in vals.items() if v is False]
+                odd = f_ if len(f_) <= len(t_) else t_
+                narrow.append((n, sorted(set(about)), odd))
+            elif any(v is False for v in vs) or any(v is True for v in vs):
+                # decided for some classes, open for the others
+                if unknown:
+                    self._undecided_guards.append((n, unknown[0]))
+                else:
+                    self._undecided_guards.append((n, ast.unparse(nd.ast)[:50]))
             else:
-                for v in verdicts:
-                    if isinstance(v, tuple) and v[0] == "narrow":
-                        narrow.append((n, v[1], v[2]))
-                    elif isinstance(v, tuple) and v[0] == "unknown":
-                        self._undecided_guards.append((n, v[1]))
+                self._undecided_guards.append((n, unknown[0] if unknown else ast.unparse(nd.ast)[:50]))
         return removed, narrow
 
     def forwarding_nodes(self, C: ClassInfo, fi: FuncInfo, fa: FA, member: Member, hooks: Set[str],
                          needed: List[ClassInfo], arg_ok: Optional[Callable], depth: int) -> Tuple[Set[int], list]:
         nodes: Set[int] = set()
         self._delegates = set()
-        self._unknown_receivers = []
+        unknown: list = []
         notes = []
         for n, call in fa.calls():
             f = call.func
@@ -456,12 +480,16 @@ class Forwarding:
                         notes.append(f"call at line {fa.line(n)} does not pass the received argument on")
                         if call.args and isinstance(call.args[0], ast.Name) and call.args[0].id not in fi.params():
                             # the argument is a local (an element of a list built from the received one, ...): not traced
-                            self._unknown_receivers.append((n, ast.unparse(call)[:50]))
+                            unknown.append((n, ast.unparse(call)[:50]))
+                    continue
+                part = self._slice_of_member(fa, f.value, n, member)
+                if part is not None:
+                    notes.append(f"the loop at line {part} walks a slice of the members only")
                     continue
                 if m is None and not (isinstance(f.value, ast.Name) and f.value.id == fa.self_name):
                     # the hook is called on something whose relation to the members is not recognised (an element of a
                     # pre-computed / zipped / filtered collection)
-                    self._unknown_receivers.append((n, ast.unparse(f.value)[:50]))
+                    unknown.append((n, ast.unparse(f.value)[:50]))
             # self.other(...) that forwards
             if isinstance(f.value, ast.Name) and f.value.id == fa.self_name and depth < 4:
                 tgt = C.lookup(f.attr)
@@ -471,7 +499,31 @@ class Forwarding:
                         if ok:
                             nodes.add(n)
                             self._delegates.add(n)
+        self._unknown_receivers = unknown
         return nodes, notes
+
+    def _slice_of_member(self, fa: FA, recv: ast.AST, at: int, member: Member) -> Optional[int]:
+        """line of the loop when recv is the element of 'for x in self.<member list>[a:b]' (a proper part of the members)"""
+        if member.kind not in ("elem", "elem_attr"):
+            return None
+        t = fa.sym.term(recv, at)
+        if t[0] == "attr":
+            t = t[1]
+        if t[0] != "var" or len(t[2]) != 1:
+            return None
+        (d,) = t[2]
+        nd = fa.cfg.nodes.get(d)
+        if nd is None or nd.kind != "next":
+            return None
+        it = nd.owner.iter
+        if isinstance(it, ast.Subscript) and isinstance(it.slice, ast.Slice) and \
+                fa.sym.term(it.value, fa.cfg.stmt_node[nd.owner]) == ("self", member.attr):
+            sl = it.slice
+            whole = (sl.lower is None or (isinstance(sl.lower, ast.Constant) and sl.lower.value in (0, None))) and sl.upper is None \
+                and (sl.step is None or (isinstance(sl.step, ast.Constant) and sl.step.value in (1, None)))
+            if not whole:
+                return nd.lineno
+        return None
 
     def check(self, C: ClassInfo, fi: FuncInfo, member: Member, hooks: Set[str], needed: List[ClassInfo],
               arg_ok: Optional[Callable] = None, depth: int = 0, assume=None,
@@ -481,15 +533,21 @@ class Forwarding:
         inl = getattr(self.prog, "inliner", None)
         if inl is not None and isinstance(C, ClassInfo):
             fi = inl.specialise(fi, C)  # template methods: private helpers resolved for the concrete receiver class
+        if isinstance(C, ClassInfo) and member.kind in ("elem", "elem_attr"):
+            from .views import expand
+            fi = expand(self, self.prog, C, fi, fi.name if fi.name in hooks else sorted(hooks)[0])
         fa0 = fa_of(self.prog, fi)
         fa = fa0.prune(assume) if assume else fa0
+        n_und = len(getattr(self, "_undecided_guards", []))
         removed, narrow = self.guard_edges(fa, member, needed)
+        und_guards = list(getattr(self, "_undecided_guards", [])[n_und:])
         cfg_unguarded = fa.cfg       # early exits are judged here: another element may fail the guard
         if removed:
             fa = fa.with_cfg(fa.cfg.pruned(removed))
             if assume:
                 fa = fa.prune(assume)
         nodes, notes = self.forwarding_nodes(C, fi, fa, member, hooks, needed, arg_ok, depth)
+        unk_here = list(self._unknown_receivers)
         delegates = set(self._delegates) & nodes
         cfg = fa.cfg
         through: Set[int] = set()
@@ -540,7 +598,7 @@ class Forwarding:
                    f"{', '.join(miss[:6])}{'...' if len(miss) > 6 else ''}"
         if notes:
             why += "; " + "; ".join(notes)
-        unk = getattr(self, "_unknown_receivers", [])
+        unk = unk_here
         if not unk and depth == 0 and member.kind in ("elem", "elem_attr"):
             # the hook is forwarded to the elements of another attribute that the constructor derives from this member's list
             # (a pre-computed / filtered copy): whether that copy holds every element that needs the hook is not decided here
@@ -555,6 +613,9 @@ class Forwarding:
         if unk and depth == 0:
             return None, (f"not decided: {fi.qualname} forwards the hook to {unk[0][1]} (line {fa.line(unk[0][0])}), whose relation to "
                           f"{member} is not recognised")
+        if und_guards and not narrow:
+            return None, (f"not decided: whether the guard at line {cfg_unguarded.nodes[und_guards[0][0]].lineno} "
+                          f"({und_guards[0][1]}) lets every {member} that needs the hook through is not decided by its class")
         return False, why
 
 
